@@ -78,6 +78,30 @@ pub fn all_guards() -> (i64, i64) {
     )
 }
 
+/// Number of threads inside a whole-map critical section (see [`Exclusive`]).
+static EXCLUSIVE: AtomicI64 = AtomicI64::new(0);
+
+/// Marks a whole-map critical section whose closure calls back into the store
+/// (`retain`): no yield point may be taken inside it.
+pub struct Exclusive;
+
+impl Exclusive {
+    pub fn enter() -> Exclusive {
+        EXCLUSIVE.fetch_add(1, Ordering::SeqCst);
+        Exclusive
+    }
+}
+
+impl Drop for Exclusive {
+    fn drop(&mut self) {
+        EXCLUSIVE.fetch_sub(1, Ordering::SeqCst);
+    }
+}
+
+pub fn all_exclusive() -> i64 {
+    EXCLUSIVE.load(Ordering::SeqCst)
+}
+
 fn never() -> bool {
     false
 }
